@@ -23,7 +23,7 @@ static const char *t_rb_name(void) { return "verif-taint"; }
 static randombytes_implementation t_rb_impl = { t_rb_name, t_rb_random, NULL, NULL, t_rb_buf, NULL };
 
 #define MAXL (1048576 + 4200)
-static unsigned char M[MAXL + 64], C[MAXL + 128], C2[MAXL + 128], K[64], N[32], AD[64], PK[32], SK[64], Q[64], T[64], SIG[64], S1[64], S2[64];
+static unsigned char M[MAXL + 64 + 32768], C[MAXL + 128], C2[MAXL + 128], K[64], N[32], AD[64], PK[32], SK[64], Q[64], T[64], SIG[64], S1[64], S2[64];
 static unsigned char *fresh(unsigned char *p, size_t n) { vrng_bytes(&rng, p, n); PUBLIC(p, n); return p; }
 static volatile int sink;
 static void pub_int(int *r) { PUBLIC(r, sizeof *r); sink += *r; }
@@ -122,6 +122,11 @@ B64X(1) B64X(3) B64X(5) B64X(7)
 OP(sodium_pad) { size_t bs = 16, n = 0; fresh(M, len + 64); SECRET(M, len); int r = sodium_pad(&n, M, len, bs, len + 64); pub_int(&r); PUBLIC(M, len + 64); PUBLIC(&n, sizeof n); }
 OP(sodium_unpad) { size_t bs = 16, n = 0, pl = 0; fresh(M, len + 64); sodium_pad(&pl, M, len, bs, len + 64); PUBLIC(M, len + 64); SECRET(M, pl);
     int r = sodium_unpad(&n, M, pl, bs); pub_int(&r); PUBLIC(&n, sizeof n); PUBLIC(M, len + 64); }
+#define UNPAD_BS(NAME, BS) OP(NAME) { size_t bs = BS, n = 0, pl = 0; fresh(M, len + BS + 64); sodium_pad(&pl, M, len, bs, len + BS + 64); PUBLIC(M, len + BS + 64); SECRET(M, pl); \
+    int r = sodium_unpad(&n, M, pl, bs); pub_int(&r); PUBLIC(&n, sizeof n); PUBLIC(M, len + BS + 64); }
+UNPAD_BS(sodium_unpad_bs16384, 16384) UNPAD_BS(sodium_unpad_bs5000, 5000)
+OP(sodium_pad_bs16384) { size_t pl = 0; fresh(M, len + 16384 + 64); SECRET(M, len); int r = sodium_pad(&pl, M, len, 16384, len + 16384 + 64); pub_int(&r); PUBLIC(M, len + 16384 + 64); }
+OP(sodium_unpad_invalid_bs8192) { size_t n = 0; fresh(M, len + 8192 + 64); SECRET(M, len + 8192 + 64); int r = sodium_unpad(&n, M, ((len + 8192 + 64) / 8192) * 8192, 8192); pub_int(&r); PUBLIC(&n, sizeof n); PUBLIC(M, len + 8192 + 64); }
 OP(sodium_unpad_invalid) { size_t n = 0; fresh(M, len + 64); SECRET(M, len + 64); int r = sodium_unpad(&n, M, ((len + 64) / 16) * 16, 16); pub_int(&r); PUBLIC(&n, sizeof n); PUBLIC(M, len + 64); }
 
 /* ---- self-checks: deliberately leaky, the monitor must report them */
@@ -154,7 +159,7 @@ static const opent ops[] = {
     L1(crypto_secretbox_easy), L1(crypto_secretbox_open_easy), L1(crypto_secretbox_xchacha20poly1305_easy), L1(crypto_secretbox_xchacha20poly1305_open_easy), L1(crypto_box_easy),
     AE(crypto_aead_chacha20poly1305), AE(crypto_aead_chacha20poly1305_ietf), AE(crypto_aead_xchacha20poly1305_ietf), AE(crypto_aead_aes256gcm), AE(crypto_aead_aegis128l), AE(crypto_aead_aegis256),
     L1(crypto_secretstream_push),
-    L1(sodium_bin2hex), L1(sodium_bin2base64_v1), L1(sodium_bin2base64_v3), L1(sodium_bin2base64_v5), L1(sodium_bin2base64_v7), L1(sodium_pad), L1(sodium_unpad), L1(sodium_unpad_invalid),
+    L1(sodium_bin2hex), L1(sodium_bin2base64_v1), L1(sodium_bin2base64_v3), L1(sodium_bin2base64_v5), L1(sodium_bin2base64_v7), L1(sodium_pad), L1(sodium_unpad), L1(sodium_unpad_invalid), L1(sodium_unpad_bs16384), L1(sodium_unpad_bs5000), L1(sodium_pad_bs16384), L1(sodium_unpad_invalid_bs8192),
 };
 
 int main(int argc, char **argv) {
